@@ -1,4 +1,5 @@
 import TLX.Props.C01File
+import TLX.Props.C01File2
 import TLX.Props.C02Capstone
 import TLX.Spec.QuicCapture
 set_option linter.unusedSimpArgs false
@@ -664,11 +665,11 @@ section Final
 open TLX.Export TLX.Quic.Session TLX.Cipher TLX.Props.C02Session TLX.Spec.KeySchedules
 variable (maskFn : Quic.Dissect.MaskFn) (H : Crypto.Prims) (Pc : Cipher.Prims)
 
-/-- **C02 FROM FILE TO FILE.** -/
-theorem quic_capture_exact (hl : H.Lawful) (h32 : H.sha256.outLen = 32) (L : SealLaws Pc)
+/-- the core of `quic_capture_exact`: the QUIC view of the described capture leaves exactly ONE session in
+    `quic_sessions`, and what it exports is `expectedOut` of the 1-RTT datagrams -/
+theorem quic_capture_session (hl : H.Lawful) (h32 : H.sha256.outLen = 32) (L : SealLaws Pc)
     -- the files and the options
-    (args : Args) (legacy : Bool) (keyFile : Option Keylog.Str) (file : Bytes) (evsH evsO : List QEv)
-    (hread : Container.read legacy file = .ok (((evsH ++ evsO).map QEv.cap).map CapEv.item))
+    (args : Args) (keyFile : Option Keylog.Str) (evsH evsO : List QEv)
     (htime : ∀ e ∈ (evsH ++ evsO).map QEv.cap, Ingest.isMinusOne e.t = false)
     (hnoc : args.checksumTest = false) (hmeta : args.metadata = false)
     (pm : List (Int × Int)) (ports : List Int)
@@ -701,11 +702,13 @@ theorem quic_capture_exact (hl : H.Lawful) (h32 : H.sha256.outLen = 32) (L : Sea
       (trk0.runDgs (d0 :: items.map (·.2.2))).cc (trk0.runDgs (d0 :: items.map (·.2.2))).sc
       ((oneItems fl evsH.length evsO).map (·.2)))
     (htimes : (((oneItems fl evsH.length evsO).map (·.2)).map fun d => (d.x.ts, d.x.srv)).Pairwise (· ≠ ·)) :
-    (∃ e, exportFile maskFn H Pc args legacy keyFile file = .abort (.write e)) ∨
-    ∃ f, exportFile maskFn H Pc args legacy keyFile file = .file f ∧
-      ReadsBack f (expectedOut
-        ((quicMachine maskFn H Pc (capInfo ((evsH ++ evsO).map QEv.cap))).new (optsOf args ports pm) p0)
-        ((oneItems fl evsH.length evsO).map (·.2))) := by
+    CapOk ((evsH ++ evsO).map QEv.cap) ∧
+    ∃ sess : QuicSess QConn,
+      quicRun (quicMachine maskFn H Pc (capInfo ((evsH ++ evsO).map QEv.cap))) (optsOf args ports pm) []
+        (quicView (optsOf args ports pm) ((fileKeysOf keyFile).getD []) (itemsFrom 0 ((evsH ++ evsO).map QEv.cap))) = [sess] ∧
+      (quicMachine maskFn H Pc (capInfo ((evsH ++ evsO).map QEv.cap))).out args.metadata sess.st =
+        expectedOut ((quicMachine maskFn H Pc (capInfo ((evsH ++ evsO).map QEv.cap))).new (optsOf args ports pm) p0)
+          ((oneItems fl evsH.length evsO).map (·.2)) := by
   -- names
   generalize hcapdef : (evsH ++ evsO).map QEv.cap = cap at *
   generalize hkeys : (fileKeysOf keyFile).getD [] = keys at *
@@ -804,8 +807,255 @@ theorem quic_capture_exact (hl : H.Lawful) (h32 : H.sha256.outLen = 32) (L : Sea
     rw [addressed_congr c0 c1 e4 e5 e6 e7 e8 e9]
   subst hodef
   subst hkeys
-  exact export_of_quic_session maskFn H Pc args legacy keyFile file cap hread hcapOk hnoc pm ports hpm hports _ hrun _ hblk
+  exact ⟨hcapOk, _, hrun, hblk⟩
 
 end Final
+
+section NoAbort
+open TLX.Export TLX.Props.C01File2
+
+/-- `export_of_quic_session` without the abort alternative: if the frames of the block and of the other sessions are taken
+    by the write loop (`WritesOk`: scapy serialises the frame, dpkt stores its time), the file IS written -/
+theorem export_of_quic_session_file (mask : Quic.Dissect.MaskFn) (H : Crypto.Prims) (P : Cipher.Prims) (args : Args)
+    (legacy : Bool) (keyFile : Option Keylog.Str) (file : Bytes) (cap : List CapEv)
+    (hread : Container.read legacy file = .ok (cap.map CapEv.item)) (hok : CapOk cap)
+    (hnoc : args.checksumTest = false)
+    (pm : List (Int × Int)) (ports : List Int)
+    (hpm : Options.getPortMap Options.Src.bare args.mArg = .ok pm)
+    (hports : Options.serverPorts Options.Src.builtin Options.Src.pDefault args.pArg = .ok ports)
+    (sess : QuicSess QConn)
+    (hq : quicRun (quicMachine mask H P (capInfo cap)) (optsOf args ports pm) []
+      (quicView (optsOf args ports pm) ((fileKeysOf keyFile).getD []) (itemsFrom 0 cap)) = [sess])
+    (blk : List Pipeline.OutPkt)
+    (hblk : (quicMachine mask H P (capInfo cap)).out args.metadata sess.st = blk)
+    (hfit : ∀ x ∈ blk, WritesOk x) (hothers : OthersFit mask H P args keyFile cap blk) :
+    ∃ f, exportFile mask H P args legacy keyFile file = .file f ∧ ReadsBack f blk := by
+  rcases export_of_quic_session mask H P args legacy keyFile file cap hread hok hnoc pm ports hpm hports sess hq blk hblk
+    with ⟨e, he⟩ | h
+  · exfalso
+    obtain ⟨_, xs, is, out, hi, hf, hw⟩ := (Props.Export.export_abort_write_iff mask H P args legacy keyFile file e).mp he
+    have hing := ingest_of_capture Keylog.srcHexClass legacy file cap hread hok
+    rw [← hnoc, hi] at hing
+    cases hing
+    have hout := C18.fresh_run_is (Pipeline.tlsMachine H P (capInfo cap)) (quicMachine mask H P (capInfo cap))
+      (optsOf args ports pm) ((fileKeysOf keyFile).getD []) (itemsFrom 0 cap)
+    rw [hq] at hout
+    simp only [List.flatMap_cons, List.flatMap_nil, List.append_nil] at hout
+    have hmd : (optsOf args ports pm).metadata = args.metadata := rfl
+    rw [hmd, hblk] at hout
+    generalize (List.flatMap (fun s => (Pipeline.tlsMachine H P (capInfo cap)).out s.st
+      ((fileKeysOf keyFile).getD [] ++ dsbKeys (optsOf args ports pm) (itemsFrom 0 cap)))
+      (tlsRun (Pipeline.tlsMachine H P (capInfo cap)) (optsOf args ports pm) []
+        (Spec.Demux.tcpView (optsOf args ports pm) (itemsFrom 0 cap)))) = pre at hout
+    have hfr := framesFrom_eq mask H P args (fileKeysOf keyFile) (itemsFrom 0 cap) (capInfo cap) pm ports hpm hports
+    rw [hout] at hfr
+    have hf' : framesFrom mask H P freshState args (fileKeysOf keyFile) (itemsFrom 0 cap) (capInfo cap) = .ok out := hf
+    rw [hfr] at hf'
+    cases hf'
+    have hwf := Lemmas.Export.framesFrom_wf mask H P freshState args _ _ _ _
+      (Lemmas.Export.itemsWith_good _ _ _ _ _ _ hi) hfr
+    have hall : ∀ x ∈ pre ++ blk, WritesOk x := by
+      intro x hx
+      rcases List.mem_append.mp hx with hx | hx
+      · exact hothers _ pre [] hfr (by rw [List.append_nil]) x (by simp [hx])
+      · exact hfit x hx
+    have hex : ∃ f, fileOfFrames ((pre ++ blk).map Frame.ofOutPkt) = .ok f := by
+      apply (C06Bytes.fileOf_ok_iff _ ?_).mpr
+      · intro fr hfr'
+        simp only [List.mem_map] at hfr'
+        obtain ⟨x, hx, rfl⟩ := hfr'
+        exact hall x hx
+      · intro fr hfr'
+        simp only [List.mem_map] at hfr'
+        obtain ⟨x, hx, rfl⟩ := hfr'
+        exact hwf x hx
+    obtain ⟨f, hfok⟩ := hex
+    have : fileOf (pre ++ blk) = .ok f := hfok
+    rw [this] at hw
+    cases hw
+  · exact h
+
+end NoAbort
+/-! ### C02 from file to file -/
+
+section Capture
+open TLX.Export TLX.Quic.Session TLX.Cipher TLX.Props.C02Session TLX.Spec.KeySchedules TLX.Props.C01File2
+variable (maskFn : Quic.Dissect.MaskFn) (H : Crypto.Prims) (Pc : Cipher.Prims)
+
+/-- EVERYTHING the file-level theorems assume, in one place (each field with its justification).
+    Parameters: the primitives (`maskFn` any header-protection primitive, `H` hash functions, `Pc` AEAD with `SealLaws`),
+    the options, the key-log file, the flow, the TLS side of the handshake `hs`, the connection's secrets, the capture as
+    two phases of events (`evsH`: handshake datagrams and foreign packets, `evsO`: 1-RTT datagrams and foreign packets),
+    the first handshake datagram `(kl0, p0, d0)` and the others `items`. -/
+structure QuicCapture (L : SealLaws Pc) (args : Args) (keyFile : Option Keylog.Str) (pm : List (Int × Int))
+    (ports : List Int) (fl : Flow) (hs : ConfHs) (ch sh ca sa : Bytes) (early : Option Bytes) (sel : SuiteSel)
+    (evsH evsO : List QEv) (kl0 : List Keylog.Key) (p0 : MainLoop.Pkt) (d0 : DgH)
+    (items : List (List Keylog.Key × MainLoop.Pkt × DgH)) : Prop where
+  /-- the hash functions are lawful (output lengths, HKDF-Expand length), SHA-256 has 32 bytes -/
+  lawful : H.Lawful
+  sha256 : H.sha256.outLen = 32
+  /-- no packet's time stamp evaluates to −1.0 (the tool would take it for a secrets block) -/
+  times : ∀ e ∈ (evsH ++ evsO).map QEv.cap, Ingest.isMinusOne e.t = false
+  /-- options: no `-c` (checksums are not looked at), no `-a`; `-m` / `-p` parse -/
+  noc : args.checksumTest = false
+  nometa : args.metadata = false
+  pmOk : Options.getPortMap Options.Src.bare args.mArg = .ok pm
+  portsOk : Options.serverPorts Options.Src.builtin Options.Src.pDefault args.pArg = .ok ports
+  /-- the two endpoints differ; the client's port is not a server port (else the tool swaps the roles) -/
+  endpoints : clientEp fl ≠ serverEp fl
+  clientPort : ports.contains (fl.clientPort : Int) = false
+  /-- the TLS handshake is conformant (`ConfHs.Ok`: RFC 8446 messages, any cut / order of the ClientHello) -/
+  hsOk : hs.Ok
+  /-- the ServerHello selects one of the four QUIC v1 suites; the traffic secrets have the hash's length -/
+  suite : selectSuite hs.sh.cipherSuite = some sel
+  outLen : (hashOf H sel.hash).outLen < 65536
+  saLen : sa.length = (hashOf H sel.hash).outLen
+  caLen : ca.length = (hashOf H sel.hash).outLen
+  /-- the key-log FILE has the connection's lines (last line of each label: `KeylogHas`) -/
+  keylog : KeylogHas ((fileKeysOf keyFile).getD []) hs.ch.random ch sh ca sa early
+  /-- the first handshake datagram of the capture is the client's first Initial; the handshake datagrams are these -/
+  first : hsItems fl ((fileKeysOf keyFile).getD []) 0 evsH = (kl0, p0, d0) :: items
+  fromClient : d0.srv = false
+  /-- the capture, sender side: every event is a datagram of the flow carrying the connection's wire bytes at the
+      reader's time, or a foreign packet the main loop does not take for QUIC; handshake before 1-RTT -/
+  described : QDescribed fl (dgWire H Pc L (dgDcid d0) sel sh ch)
+    (wireOf H Pc L sel .v1 (rfcGen (hashOf H sel.hash) sel.keyLen sa ca 0)) (optsOf args ports pm) (evsH ++ evsO)
+  phaseH : ∀ ev ∈ evsH, noOne ev = true
+  phaseO : ∀ ev ∈ evsO, noHs ev = true
+  /-- the handshake datagrams are conformant packets (`HsDgs`) carrying the handshake's CRYPTO frames (`hins`), and contain
+      a Handshake-level packet after the ServerHello (`keyed`) -/
+  hsDgs : HsDgs maskFn H Pc L (dgDcid d0) sel sh ch trk0 (d0 :: items.map (·.2.2))
+  hsIns : allIns (d0 :: items.map (·.2.2)) = hs.ins
+  keyed : (trk0.runDgs (d0 :: items.map (·.2.2))).keyed = true
+  /-- the 1-RTT datagrams are a conformant history (`Send1`), routable by a passive observer (`Routes1`), pairwise
+      different in (capture microsecond, direction) -/
+  send1 : Send1 maskFn H Pc L sel .v1 (rfcGen (hashOf H sel.hash) sel.keyLen sa ca 0)
+      (quicHp (hashOf H sel.hash) ca sel.keyLen) (quicHp (hashOf H sel.hash) sa sel.keyLen)
+      (chachaOf (trk0.runDgs (d0 :: items.map (·.2.2))).core) 0 0
+      (trk0.runDgs (d0 :: items.map (·.2.2))).tc.app (trk0.runDgs (d0 :: items.map (·.2.2))).ts.app
+      (trk0.runDgs (d0 :: items.map (·.2.2))).cc (trk0.runDgs (d0 :: items.map (·.2.2))).sc
+      ((oneItems fl evsH.length evsO).map (·.2))
+  routes : Routes1 (wireOf H Pc L sel .v1 (rfcGen (hashOf H sel.hash) sel.keyLen sa ca 0))
+      (trk0.runDgs (d0 :: items.map (·.2.2))).cc (trk0.runDgs (d0 :: items.map (·.2.2))).sc
+      ((oneItems fl evsH.length evsO).map (·.2))
+  distinct : (((oneItems fl evsH.length evsO).map (·.2)).map fun d => (d.x.ts, d.x.srv)).Pairwise (· ≠ ·)
+
+variable {maskFn H Pc}
+
+/-- what C02 demands of the output: the block of the connection's session is one UDP frame per 1-RTT datagram that carried a
+    STREAM frame, in capture order, payload = that datagram's STREAM data, its capture microsecond, addressed
+    client→server / server→client with the exported server port (`QuicPipeline.addressed`: `-m` map or 8080) -/
+def blockOf (args : Args) (pm : List (Int × Int)) (ports : List Int) (fl : Flow) (evsH evsO : List QEv) (p0 : MainLoop.Pkt) :
+    List Pipeline.OutPkt :=
+  expectedOut ((quicMachine maskFn H Pc (capInfo ((evsH ++ evsO).map QEv.cap))).new (optsOf args ports pm) p0)
+    ((oneItems fl evsH.length evsO).map (·.2))
+
+/-- **C02 FROM FILE TO FILE** (any file the reader model reads as the described packets). `exportFile` on the bytes of the
+    capture and the text of the key-log file gets past option parsing and the read loop and — unless scapy / dpkt refuse a
+    frame in the write loop — writes a file in which the tool's own reader and the independent frame parser find, as the
+    block of the connection's session, exactly `blockOf`. -/
+theorem quic_capture_exact {L : SealLaws Pc} {args : Args} {keyFile : Option Keylog.Str} {pm : List (Int × Int)}
+    {ports : List Int} {fl : Flow} {hs : ConfHs} {ch sh ca sa : Bytes} {early : Option Bytes} {sel : SuiteSel}
+    {evsH evsO : List QEv} {kl0 : List Keylog.Key} {p0 : MainLoop.Pkt} {d0 : DgH}
+    {items : List (List Keylog.Key × MainLoop.Pkt × DgH)}
+    (h : QuicCapture maskFn H Pc L args keyFile pm ports fl hs ch sh ca sa early sel evsH evsO kl0 p0 d0 items)
+    (legacy : Bool) (file : Bytes)
+    (hread : Container.read legacy file = .ok (((evsH ++ evsO).map QEv.cap).map CapEv.item)) :
+    (∃ e, exportFile maskFn H Pc args legacy keyFile file = .abort (.write e)) ∨
+    ∃ f, exportFile maskFn H Pc args legacy keyFile file = .file f ∧
+      ReadsBack f (blockOf (maskFn := maskFn) (H := H) (Pc := Pc) args pm ports fl evsH evsO p0) := by
+  obtain ⟨hcap, sess, hq, hblk⟩ := quic_capture_session maskFn H Pc h.lawful h.sha256 L args keyFile evsH evsO h.times
+    h.noc h.nometa pm ports h.pmOk h.portsOk fl h.endpoints h.clientPort hs h.hsOk ch sh ca sa early sel h.suite h.outLen
+    h.saLen h.caLen h.keylog kl0 p0 d0 items h.first h.fromClient h.described h.phaseH h.phaseO h.hsDgs h.hsIns h.keyed
+    h.send1 h.routes h.distinct
+  exact export_of_quic_session maskFn H Pc args legacy keyFile file _ hread hcap h.noc pm ports h.pmOk h.portsOk sess hq
+    _ hblk
+
+/-- … WITHOUT the abort alternative, under explicit range hypotheses: every frame of the block is taken by the write loop
+    (`WritesOk`: scapy serialises it — UDP payload at most 65507 bytes, ports below 65536, addresses of the IP version's
+    length — and dpkt can store its time), and so is whatever the other sessions of the capture export (`OthersFit`). -/
+theorem quic_capture_exact_file {L : SealLaws Pc} {args : Args} {keyFile : Option Keylog.Str} {pm : List (Int × Int)}
+    {ports : List Int} {fl : Flow} {hs : ConfHs} {ch sh ca sa : Bytes} {early : Option Bytes} {sel : SuiteSel}
+    {evsH evsO : List QEv} {kl0 : List Keylog.Key} {p0 : MainLoop.Pkt} {d0 : DgH}
+    {items : List (List Keylog.Key × MainLoop.Pkt × DgH)}
+    (h : QuicCapture maskFn H Pc L args keyFile pm ports fl hs ch sh ca sa early sel evsH evsO kl0 p0 d0 items)
+    (legacy : Bool) (file : Bytes)
+    (hread : Container.read legacy file = .ok (((evsH ++ evsO).map QEv.cap).map CapEv.item))
+    (hfit : ∀ x ∈ blockOf (maskFn := maskFn) (H := H) (Pc := Pc) args pm ports fl evsH evsO p0, WritesOk x)
+    (hothers : OthersFit maskFn H Pc args keyFile ((evsH ++ evsO).map QEv.cap)
+      (blockOf (maskFn := maskFn) (H := H) (Pc := Pc) args pm ports fl evsH evsO p0)) :
+    ∃ f, exportFile maskFn H Pc args legacy keyFile file = .file f ∧
+      ReadsBack f (blockOf (maskFn := maskFn) (H := H) (Pc := Pc) args pm ports fl evsH evsO p0) := by
+  obtain ⟨hcap, sess, hq, hblk⟩ := quic_capture_session maskFn H Pc h.lawful h.sha256 L args keyFile evsH evsO h.times
+    h.noc h.nometa pm ports h.pmOk h.portsOk fl h.endpoints h.clientPort hs h.hsOk ch sh ca sa early sel h.suite h.outLen
+    h.saLen h.caLen h.keylog kl0 p0 d0 items h.first h.fromClient h.described h.phaseH h.phaseO h.hsDgs h.hsIns h.keyed
+    h.send1 h.routes h.distinct
+  exact export_of_quic_session_file maskFn H Pc args legacy keyFile file _ hread hcap h.noc pm ports h.pmOk h.portsOk sess
+    hq _ hblk hfit hothers
+
+/-- … for the BYTES of a capture file written by the independent container encoder in ANY variant (pcapng in any variant,
+    libpcap µs / ns): `Props.C12.reader_roundtrip` gives the reader's view. -/
+theorem quic_capture_exact_encoded {L : SealLaws Pc} {args : Args} {keyFile : Option Keylog.Str} {pm : List (Int × Int)}
+    {ports : List Int} {fl : Flow} {hs : ConfHs} {ch sh ca sa : Bytes} {early : Option Bytes} {sel : SuiteSel}
+    {evsH evsO : List QEv} {kl0 : List Keylog.Key} {p0 : MainLoop.Pkt} {d0 : DgH}
+    {items : List (List Keylog.Key × MainLoop.Pkt × DgH)}
+    (h : QuicCapture maskFn H Pc L args keyFile pm ports fl hs ch sh ca sa early sel evsH evsO kl0 p0 d0 items)
+    (cv : Spec.Containers.Variant) (cevs : List Spec.Containers.Ev) (hcwf : cv.WF cevs)
+    (hitems : cevs.filterMap (Spec.Containers.scale cv) = ((evsH ++ evsO).map QEv.cap).map CapEv.item) :
+    (∃ e, exportFile maskFn H Pc args cv.isLegacy keyFile (Spec.Containers.encode cv cevs) = .abort (.write e)) ∨
+    ∃ f, exportFile maskFn H Pc args cv.isLegacy keyFile (Spec.Containers.encode cv cevs) = .file f ∧
+      ReadsBack f (blockOf (maskFn := maskFn) (H := H) (Pc := Pc) args pm ports fl evsH evsO p0) :=
+  quic_capture_exact h cv.isLegacy _ (by rw [Props.C12.reader_roundtrip cv cevs hcwf, hitems])
+
+end Capture
+
+/-! ### what `ReadsBack … blockOf` means for an independent receiver -/
+
+section Receiver
+open TLX.Export TLX.Spec.FrameParse TLX.Spec.QuicConnection
+variable {maskFn : Quic.Dissect.MaskFn} {H : Crypto.Prims} {Pc : Cipher.Prims}
+
+/-- In the block of the output file, packet `i` belongs to the `i`-th 1-RTT datagram `d` that carried a STREAM frame: the
+    tool's own reader yields it at `d`'s microsecond, and the INDEPENDENT frame parser reads a UDP datagram whose payload
+    is exactly `d`'s STREAM data, from the client's endpoint to the server's address with the exported server port, or
+    back, according to `d`'s direction, with the MAC addresses and IP version of the connection's first packet. -/
+theorem block_frames_parse (args : Args) (pm : List (Int × Int)) (ports : List Int) (fl : Flow) (evsH evsO : List QEv)
+    (p0 : MainLoop.Pkt) (f : Bytes)
+    (h : ReadsBack f (blockOf (maskFn := maskFn) (H := H) (Pc := Pc) args pm ports fl evsH evsO p0)) :
+    let c := (quicMachine maskFn H Pc (capInfo ((evsH ++ evsO).map QEv.cap))).new (optsOf args ports pm) p0
+    let ds := ((oneItems fl evsH.length evsO).map (·.2)).filter fun d => hasStream d.x.frames
+    let sp : MainLoop.Endpoint :=
+      ⟨c.server.ip, TcpOut.exportedServerPort c.opts.keep (Pipeline.portmapFn c.opts.portmap) c.server.port⟩
+    ∃ (A C : List Item) (B : List Bytes), B.length = ds.length ∧
+      Container.read false f = .ok (A ++ (ds.zip B).map (fun db => Item.pkt ⟨db.1.x.ts, 10 ^ 6, 0, false⟩ db.2) ++ C) ∧
+      ∀ db ∈ ds.zip B, ∃ q, parse db.2 = some q ∧ q.l4 = .udp ∧ q.payload = (streamData db.1.x.frames).flatten ∧
+        q.v6 = c.ipv6 ∧
+        (q.src, q.sport, q.srcMac) = (if db.1.x.srv then (sp.ip, sp.port, c.serverMac) else (c.client.ip, c.client.port, c.clientMac)) ∧
+        (q.dst, q.dport, q.dstMac) = (if db.1.x.srv then (c.client.ip, c.client.port, c.clientMac) else (sp.ip, sp.port, c.serverMac)) := by
+  intro c ds sp
+  obtain ⟨A, C, B, hB, hread, hgood⟩ := h
+  have hblk : blockOf (maskFn := maskFn) (H := H) (Pc := Pc) args pm ports fl evsH evsO p0 =
+      ds.map fun d => addressed c ⟨d.x.srv, d.x.ts, (streamData d.x.frames).flatten⟩ := rfl
+  rw [hblk] at hB hread hgood
+  refine ⟨A, C, B, by simpa using hB, ?_, ?_⟩
+  · rw [hread, List.zip_map_left, List.map_map]
+    congr 3
+    apply List.map_congr_left
+    intro db _
+    simp only [Function.comp, Prod.map, id]
+    congr 2
+    unfold addressed
+    split <;> rfl
+  · intro db hdb
+    have hmem : (addressed c ⟨db.1.x.srv, db.1.x.ts, (streamData db.1.x.frames).flatten⟩, db.2) ∈
+        (ds.map fun d => addressed c ⟨d.x.srv, d.x.ts, (streamData d.x.frames).flatten⟩).zip B := by
+      rw [List.zip_map_left]
+      exact List.mem_map.mpr ⟨db, hdb, rfl⟩
+    have hg := hgood _ hmem
+    obtain ⟨seg, hp⟩ := C06Bytes.parse_serialize _ _ hg.wf hg.serialised
+    refine ⟨_, hp, ?_⟩
+    cases hsrv : db.1.x.srv <;> simp [Frame.ofOutPkt, addressed, hsrv, sp]
+
+end Receiver
 
 end TLX.Props.C02File
